@@ -122,13 +122,13 @@ def ensure(cfg, log=sys.stderr):
 
 
 def _prune(keep):
-    """keep the cache small: retain the 10 most recently used tree keys."""
+    """keep the cache small: retain the 48 most recently used tree keys."""
     try:
         ents = [(os.path.getmtime(os.path.join(CACHE, d)), d) for d in os.listdir(CACHE)]
     except OSError:
         return
     ents.sort(reverse=True)
-    for _, d in ents[10:]:
+    for _, d in ents[48:]:
         if d != keep:
             shutil.rmtree(os.path.join(CACHE, d), ignore_errors=True)
 
